@@ -12,7 +12,8 @@
 (*    nodes    : nodes in the parse tree,                                     *)
 (*    consumed : the parser stopped at the end of the input (the rule         *)
 (*               `dialogue` has no EOF, so a parse may stop early silently),  *)
-(*    opanic   : the facts could not be established (oracle failed)]          *)
+(*    opanic   : the facts could not be established (oracle failed),         *)
+(*    blank    : the bytes are empty or white space only]                     *)
 (*                                                                            *)
 (* Declarative part (the property):  Allowed(rs, whole, seed) is the set of   *)
 (* outcomes C05 permits for readers rs (facts per reader, each parsed on its  *)
@@ -52,10 +53,14 @@ Reason(r) ==
 
 SomeInvalid(rs) == \E i \in DOMAIN rs : Class(rs[i]) = "invalid"
 AllValid(rs)    == rs # <<>> /\ \A i \in DOMAIN rs : Class(rs[i]) = "valid"
+\* A blank reader is invalid on its own ("empty input"), but next to other readers an
+\* implementation may as well skip it; it only forces an error when there is nothing else.
+AllBlank(rs)    == \A i \in DOMAIN rs : rs[i].blank            \* includes rs = <<>>
+SomeInvalidNonBlank(rs) == \E i \in DOMAIN rs : Class(rs[i]) = "invalid" /\ ~rs[i].blank
 
 MustError(rs, whole) ==
   IF PerReaderOnly THEN rs = <<>> \/ SomeInvalid(rs)
-  ELSE (rs = <<>> \/ SomeInvalid(rs)) /\ Class(whole) = "invalid"
+  ELSE (AllBlank(rs) \/ SomeInvalidNonBlank(rs)) /\ Class(whole) = "invalid"
 
 MustRunner(rs, whole, seed) ==
   /\ AllValid(rs)
